@@ -1,3 +1,63 @@
-From Coq Require Import List String.
-Example C20_placeholder : True. Proof. exact I. Qed.
-Print Assumptions C20_placeholder.
+(** C20 — the guarantees hold for any well-formed configuration, not only the demo one.  Property theorems only.
+    Every general theorem of C01-C08 / C11 is quantified over ALL configurations [c] that load and satisfy the decidable
+    well-formedness predicate [wf_loadedb] (Conf/WF.v: the documented conventions made checkable).  This file collects
+    them under that single pair of hypotheses.  The instance side (each member of the generated family parses, loads exactly
+    as the implementation loaded it, and is well-formed; then the C01-C08 streams against a fresh implementation process)
+    is run by tools/props/c20.py on every check. *)
+From Coq Require Import List String Ascii Bool Arith Permutation Sorted.
+From Spil Require Import Base.Str Base.Dict Base.Outcome Base.PyPath Resolva.Template Resolva.Resolver Conf.Conf Conf.WF Sid.Query Sid.Sid
+  Sid.TypingSpec Sid.TypingProofs Sid.SidProofs Sid.QueryProofs Search.Unfold Search.FindList Search.GlobProofs Search.FindListProofs
+  Search.UnfoldProofs Path.PathProofs.
+From SpilGen Require Hamlet.
+Import ListNotations.
+Local Open Scope string_scope.
+
+Theorem C20_all : forall c Ld, load c = Some Ld -> wf_loadedb Ld = true ->
+  (* C01 typing *)
+  (forall s, sid_to_dict Ld s "" = Ok (natural Ld s)) /\
+  (forall s ty, ty <> "" -> sid_to_dict Ld s ty = Ok (forced Ld ty s)) /\
+  (forall s, mem_c "?" s = false -> exists x, Sid Ld s = Ok x) /\
+  (* C02 canonical form and round trips *)
+  (forall s t d, natural Ld s = Some (t, d) ->
+     exists tp, find_tpl (l_sid Ld) t = Some tp /\ map fst d = item_names (tp_items tp) /\ s = join "/" (map snd d)) /\
+  (forall x, naturally_typed Ld x -> mem_c "?" (s_string x) = false -> Sid Ld (uri x) = Ok x /\ sid_copy Ld x = Ok x) /\
+  (forall x d', naturally_typed Ld x -> mem_c "010" (s_string x) = false -> Permutation (s_fields x) d' ->
+     sid_factory Ld (FromFields d') = Ok x) /\
+  (* C03 hierarchy *)
+  (forall x i, naturally_typed Ld x -> mem_c "010" (s_string x) = false -> 1 <= i <= List.length (s_fields x) ->
+     exists y, get_as Ld x (nth (i - 1) (map fst (s_fields x)) "") = Ok y /\ s_fields y = firstn i (s_fields x) /\
+               s_string y = join "/" (firstn i (split_c "/" (s_string x))) /\ sid_bool y = true) /\
+  (* C04 queries *)
+  (forall s q t d s' t' d', NoDup (map fst d) -> apply_query Ld s q t d = Ok (s', t', d') -> q <> "" ->
+     (s' = s ++ "?" ++ q /\ t' = t /\ d' = d) \/
+     (exists ov, update d q = Ok ov /\ (forall k, dget d' k = dget ov k) /\ List.length d' = List.length ov /\ forced Ld t' s' = Some (t', d'))) /\
+  (* C06 paths *)
+  (forall p cfg x, sid_of_path Ld p cfg = Ok x -> sid_bool x = true -> sid_path Ld x cfg = Ok (Some (norm_path p))) /\
+  (* C07 unfolding *)
+  (forall s u e ex, unfold_search Ld s u e = Raise ex -> ex = SpilException \/ ex = Unmodelled) /\
+  (forall s u e l, unfold_search Ld s u e = Ok l -> Forall (fun x => sid_bool x = true /\ count "?" (s_string x) = 0) l /\ NoDup (map uri l)) /\
+  (* C08 list search *)
+  (forall items s l, find_list Ld items s = Ok l -> incl l items).
+Proof.
+  intros c Ld Hl Hw. repeat split.
+  - intros s. exact (sid_to_dict_natural c Ld s Hl Hw).
+  - intros s ty Hty. exact (sid_to_dict_forced c Ld s ty Hl Hw Hty).
+  - intros s Hs. exact (Sid_total c Ld Hl Hw s Hs).
+  - intros s t d H. exact (natural_canonical c Ld Hl Hw s t d H).
+  - exact (proj1 (roundtrip_uri c Ld Hl Hw x H H0)).
+  - exact (proj2 (roundtrip_uri c Ld Hl Hw x H H0)).
+  - intros x d' H1 H2 H3. exact (roundtrip_fields c Ld Hl Hw x d' H1 H2 H3).
+  - intros x i H1 H2 H3. exact (get_as_prefix c Ld Hl Hw x i H1 H2 H3).
+  - intros s q t d s' t' d' H1 H2 H3. exact (apply_query_all_or_nothing c Ld Hl Hw s q t d s' t' d' H1 H2 H3).
+  - intros p cfg x H1 H2. exact (path_owner c Ld p cfg x Hl Hw H1 H2).
+  - intros s u e ex H. exact (unfold_errors c Ld Hl Hw s u e ex H).
+  - exact (unfold_typed_clean Ld s u e l H).
+  - exact (unfold_uri_nodup Ld s u e l H).
+  - intros items s l H. exact (find_list_incl Ld items s l H).
+Qed.
+Print Assumptions C20_all.
+
+(* the hypotheses are satisfiable: today's configuration (and, at run time, every member of the generated family) *)
+Example C20_instance : load Hamlet.the_conf = Some Hamlet.the_loaded /\ wf_loadedb Hamlet.the_loaded = true.
+Proof. split; [exact Hamlet.the_loaded_eq | exact Hamlet.conf_wf]. Qed.
+Print Assumptions C20_instance.
